@@ -189,8 +189,10 @@ def reset_globals():
     """Bring the process-global tables back to what a fresh interpreter has.
     This is the simulator's 'process restart' between runs (never inside one)."""
     S = N.Species
-    S._known_elements = []
-    S._known_pseudoelements = []
+    # importing naunet builds the module-level cooling processes, whose first
+    # Species() installs the default lists: that is the state of a fresh process
+    S._known_elements = list(S.default_elements)
+    S._known_pseudoelements = list(S.default_pseudoelements)
     S._replacement = {}
     cd = N.chemistrydata
     cd.user_binding_energy.clear()
